@@ -480,6 +480,8 @@ def _window(rng):
     if rng.random() < 0.7:
         w.append('ORDER BY ' + path(rng, 2) + rng.choice(['', ' DESC']))
     f = rng.choice(['row_number()', 'rank()', f'sum({path(rng, 1)})', f'lag({path(rng, 1)}, 1)'])
+    if rng.random() < 0.15:
+        f = '(' + f + ')'          # accepted by the grammar: the function part is an expression
     mod = ''
     if rng.random() < 0.2 and w:
         mod = ' ROWS BETWEEN UNBOUNDED PRECEDING AND CURRENT ROW'
